@@ -60,6 +60,9 @@ def configs(tier):
         cfgs.append(dict(group='history', strat=strat, storage='interval', m=2, cap=2, d=2, q=1, steps='iuii', subsets='any', _cost=4000))
         if tier == 'thorough':
             cfgs.append(dict(group='history', strat=strat, storage='batch', m=2, cap=2, d=3, q=1, steps='iii', subsets='any', _cost=40000))
+    for strat in ('joint', 'product'):
+        cfgs.append(dict(group='marginal', strat=strat, d=1, q=1, m=300 if tier == 'quick' else 1100, storage='batch', _cost=3000))
+        cfgs.append(dict(group='marginal', strat=strat, d=1, q=1, m=257, storage='interval', _cost=3000))
     for d in range(1, dmax + 1):
         for q in range(1, qmax + 1):
             cfgs.append(dict(group='default', d=d, q=q))
